@@ -174,7 +174,9 @@ fn parse_string(input: &str, span: Span) -> Result<String, Error> {
             }
             b'u' => {
                 if let Some(end_brace) = rem.bytes().position(|b| b == b'}') {
-                    let c: char = u32::from_str_radix(&rem[1..end_brace], 16)
+                    // underscores are allowed between the digits: "\u{1_F600}"
+                    let digits = rem[1..end_brace].replace('_', "");
+                    let c: char = u32::from_str_radix(&digits, 16)
                         .ok()
                         .and_then(std::char::from_u32)
                         .ok_or_else(|| {
@@ -199,7 +201,9 @@ fn parse_string(input: &str, span: Span) -> Result<String, Error> {
             b'\'' => '\'',
             b'"' => '"',
             b'\r' | b'\n' => {
-                rem = rem.trim_start();
+                // a line continuation only skips ascii whitespace (like rustc does),
+                // other whitespace characters are part of the string.
+                rem = rem.trim_start_matches(|c| matches!(c, ' ' | '\t' | '\n' | '\r'));
                 continue;
             }
             _ => return Err(make_err(rem, "invalid escape")),
